@@ -183,6 +183,16 @@ func catalog(p ScenParams) *WSpec {
 		ps := ProcSpec{Name: "ps", Kind: "psrc", Items: vals}
 		w.Procs = []ProcSpec{src, simpleProc("p", kind), ps}
 		w.Edges = []Edge{fe("src", "out", "p", "in")}
+	case "g8h": // a parameter splitter whose second out-port nobody consumes (the sink drains it) while its first one feeds p
+		pp := ProcSpec{Name: "p", Kind: kind, Ins: []string{"in"}, Params: []string{"a"}, Outs: []OutSpec{{Name: "out", Pattern: "{i:in}.{p:a}.p"}}}
+		vals := []string{}
+		for i := 0; i < p.Items; i++ {
+			vals = append(vals, fmt.Sprintf("v%d", i))
+		}
+		ps := ProcSpec{Name: "ps", Kind: "psrc", Items: vals}
+		spl := ProcSpec{Name: "sp", Kind: "psplit"}
+		w.Procs = []ProcSpec{src, ps, spl, pp}
+		w.Edges = []Edge{fe("src", "out", "p", "in"), {From: "ps", FromPort: "out", To: "sp", ToPort: "in", Param: true}, {From: "sp", FromPort: "out", To: "p", ToPort: "a", Param: true}}
 	case "g8b": // parameter port fed by a ParamSource process
 		pp := ProcSpec{Name: "p", Kind: kind, Ins: []string{"in"}, Params: []string{"a"}, Outs: []OutSpec{{Name: "out", Pattern: "{i:in}.{p:a}.p"}}}
 		vals := []string{}
@@ -297,6 +307,10 @@ func catalog(p ScenParams) *WSpec {
 		if ps := w.proc("p"); ps != nil {
 			ps.Kind = "cmd"
 			ps.DirOut = true
+		}
+	case "setout-only": // p's out-ports are declared with SetOut alone; its command builds the file name from its input
+		if ps := w.proc("p"); ps != nil {
+			ps.OutsNotInCmd = true
 		}
 	case "prepend": // Process.Prepend: a launcher in front of every command of p
 		if ps := w.proc("p"); ps != nil {
